@@ -59,7 +59,10 @@ pub fn world() -> World {
     // as io::Database::relations does, every table is reachable by its qrlew name and by its SQL path
     let relations: Hierarchy<Arc<Relation>> = specs.iter().flat_map(|t| {
         let schema: Schema = t.cols.iter().map(|c| {
-            if c.unique { (c.name, col_type(&c.ty), Some(Constraint::Unique)) } else { (c.name, col_type(&c.ty), None) }
+            // orders.user_id and items.order_id are declared as foreign keys (a constraint that says nothing about uniqueness)
+            if c.unique { (c.name, col_type(&c.ty), Some(Constraint::Unique)) }
+            else if (t.name == "orders" && c.name == "user_id") || (t.name == "items" && c.name == "order_id") { (c.name, col_type(&c.ty), Some(Constraint::ForeignKey)) }
+            else { (c.name, col_type(&c.ty), None) }
         }).collect();
         let rel: Arc<Relation> = Arc::new(Relation::table().name(t.name).path([t.path]).schema(schema).size(t.size).build());
         vec![(vec![t.name.to_string()], rel.clone()), (vec![t.path.to_string()], rel)]
